@@ -7,7 +7,7 @@ import numpy as np
 from symx import core
 
 PROPERTY = "C11"
-BUDGET = {"quick": 240, "thorough": 3000}
+BUDGET = {"quick": 240, "thorough": 1500}
 LEVEL = "model_checking"
 BOUNDS = {
     "quick": "HillClimbSearch.estimate with a table-driven StructureScore whose local scores are symbolic reals (one per variable and parent SET): "
